@@ -10,7 +10,7 @@ denotes (association list, distinct keys, `specAdd` overwrites or appends, `spec
 Statement of the property, clause by clause — every theorem is for ALL histories, ALL queries,
 any character type with a decidable strict total order, any value type:
   (a) no operation of any history traps                               C28_history_no_trap
-  (b) getLongest = longest stored prefix with its latest value        C28_getLongest (+ C28_longestPrefix_some/none,
+  (b) getLongest = longest stored prefix with its latest value        C28_getLongest, C28_table (+ C28_longestPrefix_some/none/terminator,
                                                                       C28_spec_* : what "stored" and "latest" mean)
   (c) get / has succeed exactly for stored keys                       C28_get, C28_has, C28_has_sized, C28_has_char
   (d) size() counts the stored keys                                   C28_size (+ C28_spec_distinct_keys), C28_isEmpty
@@ -119,6 +119,41 @@ theorem C28_longestPrefix_none (M : List (List α × V)) (q : List α) :
     longestPrefix M q = none ↔ ∀ m, m ≤ q.length → lookup (q.take m) M = none := by
   rw [longestPrefix, longestPrefix_go_eq, longestTake_none_iff]
 
+/-- why the C-string entry point `getLongest(const char*)` (length `INT_MAX`, used by the
+    tokenizer on the rest of the source text) is sound: if the terminator `z` occurs in no stored
+    key, nothing from the terminator on influences the answer -/
+theorem C28_longestPrefix_terminator (M : List (List α × V)) (q rest : List α) (z : α)
+    (hz : ∀ e ∈ M, z ∉ e.1) : longestPrefix M (q ++ z :: rest) = longestPrefix M q := by
+  have hshort : ∀ m, m ≤ q.length → (q ++ z :: rest).take m = q.take m :=
+    fun m hm => List.take_append_of_le_length hm
+  have hlong : ∀ m, q.length < m → lookup ((q ++ z :: rest).take m) M = none := by
+    intro m hm
+    rw [lookup_eq_none_iff]
+    intro hmem
+    simp only [List.mem_map] at hmem
+    obtain ⟨e, he, hek⟩ := hmem
+    apply hz e he
+    rw [hek, List.take_append]
+    have : m - q.length = (m - q.length - 1) + 1 := by omega
+    rw [this, List.take_succ_cons]
+    simp
+  cases h : longestPrefix M q with
+  | none =>
+    rw [C28_longestPrefix_none] at h ⊢
+    intro m _
+    by_cases hm : m ≤ q.length
+    · rw [hshort m hm]; exact h m hm
+    · exact hlong m (by omega)
+  | some r =>
+    obtain ⟨n, v⟩ := r
+    rw [C28_longestPrefix_some] at h ⊢
+    obtain ⟨hn, hl, hmax⟩ := h
+    refine ⟨by simp; omega, by rw [hshort n hn]; exact hl, ?_⟩
+    intro m hnm _
+    by_cases hm : m ≤ q.length
+    · rw [hshort m hm]; exact hmax m hnm hm
+    · exact hlong m (by omega)
+
 end Spec
 
 variable {α V : Type} [DecidableEq α] [LT α] [DecidableRel (α := α) (· < ·)] [Inhabited α] [TotalLT α]
@@ -219,6 +254,33 @@ theorem C28_frozen_eq_unfrozen (ops : List (Op α V)) (t : Trie α V) (h : Trie.
   exact ⟨tf, ef, this, rfl, by rw [longest_eq hif, longest_eq hid], by rw [longest_eq hif, longest_eq hi],
     by rw [getValue_eq hif, getValue_eq hid], by rw [has_eq hif, has_eq hid], by rw [size_eq hif, size_eq hid]⟩
 
+/-- a trie filled by `add`ing a table with pairwise distinct keys (how the tokenizer fills its
+    operator trie) denotes exactly that table; so, by `C28_getLongest`, its `getLongest(q)` is
+    `longestPrefix table q` -/
+theorem C28_table (table : List (List α × V)) (hd : (table.map (·.1)).Nodup) (t : Trie α V)
+    (h : Trie.run {} (table.map fun e => Op.add e.1 e.2) = some t) (q : List α) :
+    t.longest q = some (longestPrefix table q) := by
+  rw [C28_getLongest _ t h]
+  congr 2
+  have key : ∀ (M : List (List α × V)), ((M ++ table).map (·.1)).Nodup →
+      specRun M (table.map fun e => Op.add e.1 e.2) = M ++ table := by
+    clear h hd
+    induction table with
+    | nil => intro M _; simp [specRun]
+    | cons e r ih =>
+      intro M hn
+      obtain ⟨k, v⟩ := e
+      have hk : lookup k M = none := by
+        rw [lookup_eq_none_iff]
+        intro hm
+        rw [List.map_append, List.nodup_append] at hn
+        exact hn.2.2 k hm k (by simp) rfl
+      have hadd : specAdd M k v = M ++ [(k, v)] := by unfold specAdd; simp [hk]
+      show specRun (specAdd M k v) (r.map fun e => Op.add e.1 e.2) = M ++ (k, v) :: r
+      rw [hadd, ih (M ++ [(k, v)]) (by simpa using hn)]
+      simp
+  simpa using key [] (by simpa using hd)
+
 /-- "most recently added": right after `add k v`, `get(k)` yields `v`, whatever came before -/
 theorem C28_latest_value (ops : List (Op α V)) (k : List α) (v : V) (t : Trie α V)
     (h : Trie.run {} (ops ++ [.add k v]) = some t) : t.getValue k = some (some v) := by
@@ -247,6 +309,7 @@ example : ∃ t, Trie.run ({} : Trie Nat Nat) exOps = some t ∧ t.size = 3 ∧
   · rw [C28_has exOps t e]; decide
 example : ((Trie.run ({} : Trie Nat Nat) exOps).bind fun t => t.frozen.map fun f => f.baseNodeCount) = some 1 := by
   decide +kernel
+example : ((exOps.filterMap fun | .add k v => some (k, v) | _ => none).map (·.1)).Nodup := by decide
 example : Sorted (Node.mk none [((1 : Nat), Node.mk (some 0) []), (2, Node.mk none [(5, Node.mk (some 1) [])])]) := by
   simp [sorted_mk, KeysLt]
 
